@@ -6,6 +6,7 @@ import (
 
 	"github.com/goplus/gogen/verif/internal/drive"
 	"github.com/goplus/gogen/verif/internal/h"
+	"github.com/goplus/gogen/verif/internal/ref"
 )
 
 // C06 — overload resolution picks the first applicable candidate and leaves no residue (DESIGN.md §2 C06).
@@ -50,6 +51,9 @@ type c06Family struct {
 	ncand int
 	sigs  []string
 	msigs map[bool][]string // parameter lists: [true] of the functions F__i, [false] of the methods M__i
+	// names of the candidates in index order: F__k / M__k, or arbitrary names bound by an explicit XGoo_ list
+	fnames, mnames []string
+	variant        string
 }
 
 // splitArgs splits a comma separated argument list at top level.
@@ -108,10 +112,14 @@ func wrapInit(sig, args string) string {
 
 func c06Fixture(r *h.Rand, path string) c06Family {
 	n := 1 + r.Intn(6)
+	if r.Chance(12) {
+		n = 10 + r.Intn(4) // indices beyond 9 are spelled a, b, c, … (F__a)
+	}
+	explicit := r.Chance(35) // explicit lists: const XGoo_F = "AltF0,,AltF2" (an empty slot means F__<index>)
 	var sb strings.Builder
 	sb.WriteString("package fxo\n\nconst XGoPackage = true\n\ntype MyN int\ntype T struct{ V int }\ntype Lv struct{ N int }\nfunc Lv_Init(v int) Lv { return Lv{v} }\n")
 	fam := c06Family{path: path, ncand: n, msigs: map[bool][]string{}}
-	var ifaceMethods []string
+	var ifaceMethods, fslots, mslots []string
 	for k := 0; k < n; k++ {
 		var sig string
 		if r.Chance(25) {
@@ -121,7 +129,20 @@ func c06Fixture(r *h.Rand, path string) c06Family {
 		}
 		fam.sigs = append(fam.sigs, sig)
 		fam.msigs[true] = append(fam.msigs[true], sig)
-		fmt.Fprintf(&sb, "type RF%d int\nfunc F__%d%s (r RF%d) { return }\n", k, k, sig, k)
+		const idx = "0123456789abcdefghijklmnopqrstuvwxyz"
+		fname, mname := "F__"+idx[k:k+1], "M__"+idx[k:k+1]
+		fslot, mslot := "", ""
+		if explicit && r.Chance(65) {
+			fname = fmt.Sprintf("AltF%dx", k)
+			fslot = fname
+		}
+		if explicit && r.Chance(65) {
+			mname = fmt.Sprintf("AltM%dx", k)
+			mslot = "." + mname
+		}
+		fam.fnames, fam.mnames = append(fam.fnames, fname), append(fam.mnames, mname)
+		fslots, mslots = append(fslots, fslot), append(mslots, mslot)
+		fmt.Fprintf(&sb, "type RF%d int\nfunc %s%s (r RF%d) { return }\n", k, fname, sig, k)
 		msig := sig
 		if strings.HasPrefix(sig, "[") { // methods cannot be generic
 			msig = "(" + h.Pick(r, c06Params) + ")"
@@ -131,8 +152,15 @@ func c06Fixture(r *h.Rand, path string) c06Family {
 		if r.Chance(40) {
 			recv = "*T"
 		}
-		fmt.Fprintf(&sb, "type RM%d int\nfunc (p %s) M__%d%s (r RM%d) { return }\n", k, recv, k, msig, k)
-		ifaceMethods = append(ifaceMethods, fmt.Sprintf("\tM__%d%s (r RM%d)", k, msig, k))
+		fmt.Fprintf(&sb, "type RM%d int\nfunc (p %s) %s%s (r RM%d) { return }\n", k, recv, mname, msig, k)
+		ifaceMethods = append(ifaceMethods, fmt.Sprintf("\t%s%s (r RM%d)", mname, msig, k))
+	}
+	if explicit {
+		fam.variant = " explicit-lists"
+		fmt.Fprintf(&sb, "const XGoo_F = %q\nconst XGoo_T_M = %q\nconst XGoo_I_M = %q\n", strings.Join(fslots, ","), strings.Join(mslots, ","), strings.Join(mslots, ","))
+	}
+	if n > 9 {
+		fam.variant += " many-candidates"
 	}
 	sb.WriteString("type I interface {\n" + strings.Join(ifaceMethods, "\n") + "\n}\n")
 	fam.src = sb.String()
@@ -150,10 +178,133 @@ func c06Prog(path, stmt string) string {
 	return "package main\n\nimport fxo \"" + path + "\"\n" + c06Env + "\nfunc probe() {\n\t" + stmt + "\n}\n"
 }
 
+// c06Call is one overloaded use: the statement templates contain %s where the callee expression goes.
+type c06Call struct {
+	key     string   // result key
+	over    string   // statement using the overloaded name, e.g. `_ = fxo.F(1)`
+	direct  []string // for each candidate in index order: the statement naming that candidate, e.g. `_ = fxo.F__0(1)`
+	alt     []string // optional second spelling per candidate that also counts as "accepts" (implicit T_Init conversion); "" if none
+	names   []string // candidate names as they appear in the emitted call (short, without qualifier)
+	sigs    []string
+	defStmt func(stmt string) string // turns `_ = X` into `v := X; _ = v`; nil if the use has no result
+	plain   string                   // if non-empty: a statement of plain Go that takes precedence when Go accepts it (conversion before T_Cast)
+}
+
+func c06Decide(u *ref.Universe, path, famSrc string, c c06Call) h.Result {
+	want := -1
+	for k := range c.direct {
+		if ck := u.Check("main", c06Prog(path, c.direct[k])); len(ck.Errs) == 0 {
+			want = k
+			break
+		}
+		// documented extension: a parameter of a type T with T_Init accepts what T_Init accepts (implicit conversion)
+		if k < len(c.alt) && c.alt[k] != "" {
+			if ck := u.Check("main", c06Prog(path, c.alt[k])); len(ck.Errs) == 0 {
+				want = k
+				break
+			}
+		}
+	}
+	o := drive.Build(u, []string{c06Prog(path, c.over)}, drive.Opt{NoCompare: true})
+	res := h.Result{Key: c.key, Verdict: h.Held}
+	if o.Status == "fe" || o.Status == "imbalance" {
+		res.Verdict, res.Kind, res.Detail = h.Skip, o.Status, o.Msg
+		return res
+	}
+	res.NonTrivial = true
+	res.Count("overloaded_calls", 1)
+	res.Tag(fmt.Sprintf("expected:%d", want))
+	got := -1
+	probe := probeFunc(o.Output())
+	if o.Status == "accepted" {
+		for k, n := range c.names {
+			if strings.Contains(probe, n+"(") {
+				got = k
+			}
+		}
+	}
+	fail := func(kind, detail string) {
+		res.Verdict, res.Kind = h.Violated, kind
+		res.Detail = detail
+		res.Input = famSrc + "\n// ---- caller ----\n" + c06Prog(path, c.over)
+	}
+	switch {
+	case o.Status == "crash":
+		fail("crash: "+o.CrashSig, o.Msg+"\n"+o.Stack)
+	case want < 0 && o.Status == "accepted" && len(o.OutErrs) > 0:
+		fail("no-candidate-applies-but-accepted", fmt.Sprintf("Go accepts none of the %d candidates; builder emitted %s (%s)", len(c.direct), probe, firstN(o.OutErrs, 1)))
+	case want < 0 && o.Status == "accepted":
+		res.Count("accepted_via_extension", 1)
+	case want < 0:
+		res.Count("rejected_no_candidate", 1)
+	case o.Status != "accepted":
+		fail("applicable-candidate-rejected", fmt.Sprintf("candidate %d (%s) accepts the arguments under Go's rules; builder reports: %s", want, c.sigs[want], o.Msg))
+	case got != want:
+		fail(fmt.Sprintf("wrong-candidate: chose %d expected %d", got, want), fmt.Sprintf("first applicable candidate is %d (%s); emitted: %s", want, c.sigs[want], probe))
+	case len(o.OutErrs) > 0:
+		fail("chosen-call-ill-typed", firstN(o.OutErrs, 2)+"\n"+probe)
+	default:
+		// residue: the emitted call must be what a direct call of the chosen candidate emits
+		twin := drive.Build(u, []string{c06Prog(path, c.direct[want])}, drive.Opt{NoCompare: true})
+		if twin.Status == "accepted" {
+			if tp := probeFunc(twin.Output()); tp != probe {
+				fail("residue", "emitted call differs from the call emitted when only the chosen candidate is named:\n  overloaded: "+probe+"\n  direct:     "+tp)
+				break
+			}
+			if twin.Output() != o.Output() {
+				fail("residue-outside-call", "files differ outside the call (import table / declarations)")
+				break
+			}
+			res.Count("twin_compared", 1)
+		}
+		// recorder must name the chosen object
+		okRec := false
+		for _, ev := range o.RecEvents {
+			if ev.Kind == "call" && ev.Obj != nil && ev.Obj.Name() == c.names[want] {
+				okRec = true
+			}
+		}
+		if !okRec {
+			var names []string
+			for _, ev := range o.RecEvents {
+				if ev.Kind == "call" && ev.Obj != nil {
+					names = append(names, ev.Obj.Name())
+				}
+			}
+			fail("recorder-call", fmt.Sprintf("Recorder.Call objects %v do not include %s", names, c.names[want]))
+			break
+		}
+		// result type: `v := call` — the type the builder reports for the call and declares for v must be the chosen
+		// candidate's result type (go/types on the emitted package, which names the concrete candidate)
+		if c.defStmt != nil {
+			rt := drive.Build(u, []string{c06Prog(path, c.defStmt(c.over))}, drive.Opt{})
+			if rt.Status == "accepted" && len(rt.OutErrs) == 0 {
+				if ds := append(append([]drive.Diff{}, rt.EmitDiffs...), rt.TypeDiffs...); len(ds) > 0 {
+					fail("result-type: "+diffStr(ds[0]), "reported type of the overloaded call / of the variable declared from it differs from the chosen candidate's:\n"+probeFunc(rt.Output()))
+					break
+				}
+				if rt.NCmpEmit+rt.NCmpDecl > 0 {
+					res.Count("result_types_compared", int64(rt.NCmpEmit+rt.NCmpDecl))
+				}
+			} else if rt.Status != "fe" {
+				fail("define-from-overloaded-call", fmt.Sprintf("`_ = call` is accepted but `v := call` is not (%s %s %s)", rt.Status, rt.Msg, firstN(rt.OutErrs, 1)))
+				break
+			}
+		}
+		res.Count("resolved_as_expected", 1)
+	}
+	return res
+}
+
+func c06Define(stmt string) string { return "v := " + strings.TrimPrefix(stmt, "_ = ") + "; _ = v" }
+
 func c06Run(tier string, seed uint64, i int) []h.Result {
 	r := h.NewRand(seed, 6, uint64(i))
 	u := sharedUniverse()
 	path := fmt.Sprintf("fx/ov/s%d/c%d", seed, i)
+	if i%4 == 3 {
+		return c06ExtRun(r, u, path)
+	}
 	fam := c06Fixture(r, path)
 	u.AddSource(path, fam.src)
 	if _, err := u.Import(path); err != nil {
@@ -162,99 +313,23 @@ func c06Run(tier string, seed uint64, i int) []h.Result {
 	var out []h.Result
 	for _, callee := range []string{"fxo.F", "t.M", "pt.M", "it.M"} { // (methods on non-addressable operands: see C08)
 		base := callee[:len(callee)-1]
-		name := callee[len(callee)-1:]
+		names := fam.fnames
+		sigs := fam.msigs[true]
+		if callee != "fxo.F" {
+			names, sigs = fam.mnames, fam.msigs[false]
+		}
 		for _, args := range c06Args {
-			// reference: first candidate Go accepts
-			want := -1
+			c := c06Call{over: fmt.Sprintf("_ = %s(%s)", callee, args), names: names, sigs: sigs, defStmt: c06Define}
+			c.key = fmt.Sprintf("family{%s}%s call %s", strings.Join(fam.sigs, " ; "), fam.variant, c.over)
 			for k := 0; k < fam.ncand; k++ {
-				ck := u.Check("main", c06Prog(path, fmt.Sprintf("_ = %s%s__%d(%s)", base, name, k, args)))
-				if len(ck.Errs) == 0 {
-					want = k
-					break
+				c.direct = append(c.direct, fmt.Sprintf("_ = %s%s(%s)", base, names[k], args))
+				alt := ""
+				if w := wrapInit(sigs[k], args); w != "" {
+					alt = fmt.Sprintf("_ = %s%s(%s)", base, names[k], w)
 				}
-				// documented extension: a parameter of a type T with T_Init accepts what T_Init accepts (implicit conversion)
-				if w := wrapInit(fam.msigs[callee == "fxo.F"][k], args); w != "" {
-					ck := u.Check("main", c06Prog(path, fmt.Sprintf("_ = %s%s__%d(%s)", base, name, k, w)))
-					if len(ck.Errs) == 0 {
-						want = k
-						break
-					}
-				}
+				c.alt = append(c.alt, alt)
 			}
-			stmt := fmt.Sprintf("_ = %s(%s)", callee, args)
-			o := drive.Build(u, []string{c06Prog(path, stmt)}, drive.Opt{NoCompare: true})
-			res := h.Result{Key: fmt.Sprintf("family{%s} call %s", strings.Join(fam.sigs, " ; "), stmt), Verdict: h.Held}
-			if o.Status == "fe" || o.Status == "imbalance" {
-				res.Verdict, res.Kind, res.Detail = h.Skip, o.Status, o.Msg
-				out = append(out, res)
-				continue
-			}
-			res.NonTrivial = true
-			res.Count("overloaded_calls", 1)
-			res.Tag(fmt.Sprintf("expected:%d", want))
-			got := -1
-			probe := probeFunc(o.Output())
-			if o.Status == "accepted" {
-				for k := 0; k < fam.ncand; k++ {
-					if strings.Contains(probe, fmt.Sprintf("%s__%d(", name, k)) {
-						got = k
-					}
-				}
-			}
-			fail := func(kind, detail string) {
-				res.Verdict, res.Kind = h.Violated, kind
-				res.Detail = detail
-				res.Input = fam.src + "\n// ---- caller ----\n" + c06Prog(path, stmt)
-			}
-			switch {
-			case o.Status == "crash":
-				fail("crash: "+o.CrashSig, o.Msg+"\n"+o.Stack)
-			case want < 0 && o.Status == "accepted" && len(o.OutErrs) > 0:
-				fail("no-candidate-applies-but-accepted", fmt.Sprintf("Go accepts none of the %d candidates; builder emitted %s (%s)", fam.ncand, probe, firstN(o.OutErrs, 1)))
-			case want < 0 && o.Status == "accepted":
-				res.Count("accepted_via_extension", 1)
-			case want < 0:
-				res.Count("rejected_no_candidate", 1)
-			case o.Status != "accepted":
-				fail("applicable-candidate-rejected", fmt.Sprintf("candidate %d (%s) accepts the arguments under Go's rules; builder reports: %s", want, fam.sigs[want], o.Msg))
-			case got != want:
-				fail(fmt.Sprintf("wrong-candidate: chose %d expected %d", got, want), fmt.Sprintf("first applicable candidate is %d (%s); emitted: %s", want, fam.sigs[want], probe))
-			case len(o.OutErrs) > 0:
-				fail("chosen-call-ill-typed", firstN(o.OutErrs, 2)+"\n"+probe)
-			default:
-				// residue: the emitted call must be what a direct call of the chosen candidate emits
-				twin := drive.Build(u, []string{c06Prog(path, fmt.Sprintf("_ = %s%s__%d(%s)", base, name, want, args))}, drive.Opt{NoCompare: true})
-				if twin.Status == "accepted" {
-					if tp := probeFunc(twin.Output()); tp != probe {
-						fail("residue", "emitted call differs from the call emitted when only the chosen candidate is named:\n  overloaded: "+probe+"\n  direct:     "+tp)
-						break
-					}
-					if twin.Output() != o.Output() {
-						fail("residue-outside-call", "files differ outside the call (import table / declarations)")
-						break
-					}
-					res.Count("twin_compared", 1)
-				}
-				// recorder must name the chosen object
-				okRec := false
-				for _, ev := range o.RecEvents {
-					if ev.Kind == "call" && ev.Obj != nil && ev.Obj.Name() == fmt.Sprintf("%s__%d", name, want) {
-						okRec = true
-					}
-				}
-				if !okRec {
-					var names []string
-					for _, ev := range o.RecEvents {
-						if ev.Kind == "call" && ev.Obj != nil {
-							names = append(names, ev.Obj.Name())
-						}
-					}
-					fail("recorder-call", fmt.Sprintf("Recorder.Call objects %v do not include %s__%d", names, name, want))
-					break
-				}
-				res.Count("resolved_as_expected", 1)
-			}
-			out = append(out, res)
+			out = append(out, c06Decide(u, path, fam.src, c))
 		}
 	}
 	return out
